@@ -145,7 +145,7 @@ PROPS = {
                    "queued per call, only when the received message is a request, and it mirrors the request's command code, "
                    "application id, hop-by-hop and end-to-end identifiers with R cleared; nothing is queued on any other "
                    "connection (frame); the DWR/DPR handlers queue exactly one 2001 answer; send_message queues exactly once.",
-        level_note="Sequential contracts (handlers serialized). Assumed: user-handler contract.",
+        level_note="Sequential contracts (handlers serialized). Since round 6 send_message, _record_answer and send_answer are proved to raise nothing (a send that failed after queueing made the node answer the same request twice: defect fixed in 6d908c3). Assumed: user-handler contract (a handler that itself sends an answer and then raises is outside it), PeerStats bookkeeping.",
         explanation="ghost answer-log contracts on _receive_message, send_message and the base-protocol handlers.",
     ),
     "C17": dict(
